@@ -12,6 +12,7 @@ package ice
 
 //@ ghost field ice.Agent.gUserOK bool
 //@ ghost field ice.Agent.gIntegOK bool
+//@ ghost field ice.Agent.gTbOK bool
 
 //@ func canHandleInbound
 //@   props C02
@@ -20,7 +21,7 @@ package ice
 //@   ensures binding-only: result == (msg.Type.Method == 1 && (msg.Type.Class == 0 || msg.Type.Class == 1 || msg.Type.Class == 2))
 
 //@ func (*Agent).handleInboundRequest
-//@   props C02
+//@   props C02 C05
 //@   requires a != nil && msg != nil
 //@   site call AssertUsername#1 assert username-message: arg0 == msg
 //@   site call AssertUsername#1 assert username-is-local-colon-remote: arg1 == a.localUfrag + ":" + a.remoteUfrag
@@ -32,6 +33,9 @@ package ice
 //@   site call addRemoteCandidate#1 assert prflx-only-when-authenticated: a.gUserOK && a.gIntegOK
 //@   site call handleRoleConflict#1 assert conflict-only-when-authenticated: a.gUserOK && a.gIntegOK
 //@   site call HandleBindingRequest#1 assert selector-only-when-authenticated: a.gUserOK && a.gIntegOK
+//@   site call GetFrom#2 ghost a.gTbOK := result == nil
+//@   site call handleRoleConflict#1 assert C05 conflict-only-on-same-role: a.gTbOK && remoteTieBreaker.Role == ite(a.isControlling != 0, Controlling, Controlled) && arg4 == remoteTieBreaker
+//@   site call HandleBindingRequest#1 assert C05 conflicting-request-never-reaches-selector: !(a.gTbOK && remoteTieBreaker.Role == ite(a.isControlling != 0, Controlling, Controlled))
 //@   ensures reject-bad-username: !a.gUserOK ==> remoteCand == nil && !ok && unchangedExcept("H_ice.Agent.gUserOK", "H_ice.Agent.gIntegOK")
 //@   ensures reject-bad-integrity: a.gUserOK && !a.gIntegOK ==> remoteCand == nil && !ok && unchangedExcept("H_ice.Agent.gUserOK", "H_ice.Agent.gIntegOK")
 //@   ensures accept-needs-both: ok ==> a.gUserOK && a.gIntegOK
